@@ -425,39 +425,82 @@ def check_cursor(ctx: Context, rep, rule: str) -> None:
            "invariant, so == is accepted)")
     incs = [n for n in walk(fn.body) if kind(n, "Binary") and n["op"] == "+=" and
             norm(text(n["left"])) == "self.used_examples"]
-    gets = [n for n in walk(fn.body) if kind(n, "Call") and
-            norm(text(n["func"])) == "get_example"]
-    ok = len(incs) == 1 and norm(text(incs[0]["right"])) == "1" and len(gets) == 1 \
-        and gets[0]["args"] and norm(text(gets[0]["args"][0])) == "self.used_examples" \
-        and oi[id(gets[0])] < oi[id(incs[0])] and oi[id(guard)] < oi[id(gets[0])]
+    # the read of the example: `examples.get(IDX)`, either here (helper
+    # inlined / written in place) or in the one function this one calls with
+    # the cursor as an argument
+    reader, idx_ok, read_site = None, False, None
+    here = [n for n in fn.method_calls("get")
+            if "examples" in norm(text(n["recv"]))]
+    if here:
+        reader = fn
+        read_site = here[0]
+        idx_ok = len(here) == 1 and norm(text(here[0]["args"][0])) == \
+            "self.used_examples"
+        site_in_next = here[0]
+    else:
+        site_in_next = None
+        for c in [n for n in walk(fn.body) if kind(n, "Call") and
+                  kind(n.get("func"), "Path")]:
+            pos = [k for k, a in enumerate(c["args"])
+                   if norm(text(a)) == "self.used_examples"]
+            if len(pos) != 1:
+                continue
+            cand = [f for key, f in ctx.rust.functions.items()
+                    if key.startswith(EI) and f.name == norm(
+                        text(c["func"])).split("::")[-1]]
+            if len(cand) != 1:
+                continue
+            g = cand[0]
+            params = [p["name"].replace("mut ", "").strip()
+                      for p in g.node.get("params", [])]
+            getc = [n for n in g.method_calls("get")
+                    if "examples" in norm(text(n["recv"]))]
+            if len(params) > pos[0] and getc:
+                reader, read_site, site_in_next = g, getc[0], c
+                idx_ok = len(getc) == 1 and norm(
+                    text(getc[0]["args"][0])) == params[pos[0]]
+    if reader is None:
+        raise AnalysisError("C15.cursor: the read `examples.get(..)` of the "
+                            "cursor position was not found")
+    ok = len(incs) == 1 and norm(text(incs[0]["right"])) == "1" and idx_ok \
+        and oi[id(site_in_next)] < oi[id(incs[0])] and \
+        oi[id(guard)] < oi[id(site_in_next)]
     rep.ob(rule, bool(ok), loc=fn.loc(incs[0]) if incs else fn.loc(),
            where=fn.qual,
-           construct="get_example(self.used_examples, ..); self.used_examples += 1",
+           construct="examples.get(self.used_examples) ..; "
+           "self.used_examples += 1",
            message="index read before a single +1 increment, after the "
            "exhaustion test")
     last = fn.body[-1]
     res_names = [n["pat"]["name"] for n in walk(fn.body) if kind(n, "Local") and
-                 kind(n.get("pat"), "PIdent") and gets and
-                 any(x is gets[0] for x in walk(n.get("init")))]
+                 kind(n.get("pat"), "PIdent") and
+                 any(x is site_in_next for x in walk(n.get("init")))]
     lt = norm(text(last))
-    rep.ob(rule, any(lt == f"Some({r})" for r in res_names) or (
-        gets and lt.startswith("Some(get_example")), loc=fn.loc(last),
+    rep.ob(rule, any(lt == f"Some({r})" for r in res_names) or any(
+        x is site_in_next for x in walk(last)), loc=fn.loc(last),
            where=fn.qual, construct=lt,
            message="the example read is the one returned")
-    # get_example indexes with its id argument
-    ge = ctx.rust.fn(EI, "get_example")
-    getc = [n for n in ge.method_calls("get") if "examples" in norm(text(n["recv"]))]
-    rep.ob(rule, len(getc) == 1 and norm(text(getc[0]["args"][0])) == "id",
-           loc=ge.loc(getc[0]) if getc else ge.loc(), where=ge.qual,
-           construct=norm(text(getc[0])) if getc else "examples.get(id)",
-           message="get_example reads the example with the requested index")
+    rep.ob(rule, idx_ok, loc=reader.loc(read_site), where=reader.qual,
+           construct=norm(text(read_site)),
+           message="the example with the requested index is read")
     # attributes in stored order, all of them
-    last = ge.body[-1]
-    lt = norm(text(last))
-    rep.ob(rule, lt.startswith("attributes.iter().map(") and
-           ".attribute_bytes()" in lt and not any(
-               w in lt for w in (".rev()", ".skip(", ".take(", ".filter(")),
-           loc=ge.loc(last), where=ge.qual, construct=lt[:100],
+    maps = [n for n in reader.method_calls("map") if norm(
+        text(n["recv"])) == "attributes.iter()" and
+        ".attribute_bytes()" in norm(text(n))]
+    chain_ok = False
+    lt = "<none>"
+    if len(maps) == 1:
+        # the whole chain the map sits in: walk up through method calls
+        pm = parent_map(reader.body)
+        top = maps[0]
+        while kind(pm.get(id(top)), "MethodCall") and \
+                pm[id(top)]["recv"] is top:
+            top = pm[id(top)]
+        lt = norm(text(top))
+        chain_ok = not any(w in lt for w in (".rev()", ".skip(", ".take(",
+                                              ".filter(", ".step_by("))
+    rep.ob(rule, chain_ok, loc=reader.loc(maps[0]) if maps else reader.loc(),
+           where=reader.qual, construct=lt[:100],
            message="all attribute byte vectors are copied in stored order")
 
 
@@ -734,12 +777,8 @@ def check_static_map(ctx: Context, rep, rule: str) -> None:
 
 def panic_inventory(ctx: Context, rep, rule: str) -> None:
     sites = []
-    for name in ("get_file_bytes", "read_to_end", "get_shard_progress",
-                 "get_example"):
-        try:
-            f = ctx.rust.fn(EI, name)
-        except AnalysisError:
-            continue
+    for f in [f for key, f in ctx.rust.functions.items()
+              if key.startswith(EI) and "::tests::" not in key]:
         for n in f.method_calls():
             if n["method"] in ("unwrap", "expect"):
                 sites.append(f"{f.loc(n)} {f.qual}: .{n['method']}()")
